@@ -373,7 +373,14 @@ def _one(p):
 
 
 def _r35(ctx, ev, rep):
-    """filter predicate (shared with C03 R3.5), reported under R8.4"""
+    filter_predicate_rules(ctx, ev, rep)
+    # ---------- R8.6 the output file's buffered writer is flushed with the result used (lossless output)
+    from .c17 import bufwriter_rules
+    bufwriter_rules(ctx, rep, "R8.6")
+
+
+def filter_predicate_rules(ctx, ev, rep):
+    """filter predicate (shared with C03 R3.5 and C06), reported under R8.4"""
     f = ctx.facts()
     fp = AP + "input_scanner::is_rdh_filter_target"
     FT = AP + "config::filter::FilterTarget"
@@ -389,7 +396,3 @@ def _r35(ctx, ev, rep):
         except Unsupported as e:
             r = "unsupported"
         rep.check(r == want, "R8.4", "R8.4|filter|%s" % var, "a packet matches filter %s ⇔ %s" % (var, want), fp, "filter %s predicate is %s" % (var, r))
-
-    # ---------- R8.6 the output file's buffered writer is flushed with the result used (lossless output)
-    from .c17 import bufwriter_rules
-    bufwriter_rules(ctx, rep, "R8.6")
